@@ -846,4 +846,3 @@ func (ex *Exec) shapedCompare(a, b View) (*T, bool) {
 	}
 	return res, true
 }
-
